@@ -65,10 +65,18 @@ PROPS["C14"] = dict(
     contracts=["util_url"],
     bounded=["c14"],
     level="other",
-    trusted_base=COMMON_TRUSTED,
-    assumptions=["reference RFC 3986 reading used by the bounded contract: authority ends at the first / ? # or backslash, host follows the last '@', port follows the last ':' outside brackets"],
-    not_decided=[],
-    explanation="bounded stand-in only so far (deductive totality / encoder obligations follow)",
-    level_text="bounded",
-    level_note="bounded",
+    trusted_base=COMMON_TRUSTED + ["regex capture groups over-approximated: a group is None (if optional) or a substring of the subject matching its own sub-pattern"],
+    assumptions=["reference RFC 3986 reading used by the bounded contract: authority ends at the first / ? # or backslash, host follows the last '@', port follows the last ':' outside brackets",
+                 "_normalize_host: assumed contract (returns str/None, raises only LocationParseError/ValueError); its behaviour is exercised by the bounded contract"],
+    not_decided=["agreement with RFC 3986 / canonical form / idempotence beyond the stated bound (regex capture-group priority semantics are outside the VC generator's reach)"],
+    explanation="Two parts. (1) PROVED for all strings by VC generation over the real parse_url/_encode_target bodies: totality (only LocationParseError escapes: every "
+                "failure mode of every operation in the body is either caught by the except clause or impossible), result is a Url, port None or within 0..65535, scheme lower-cased. "
+                "(2) BOUNDED (never counted as proved): the full contract of the statement (normal form, RFC 3986 character sets, upper-case escapes, no double encoding, dot-segments removed, "
+                "idempotence, host/port/userinfo agreement with an independent RFC 3986 reading, linear running time) evaluated on the real parse_url exhaustively for every string up to "
+                "length 5 (quick) / 6 (thorough) over a 16-symbol delimiter-heavy alphabet after 3 prefixes, on pairwise-complete + random hostile component products, and on 1e5-character repetitions.",
+    level_text="Partial proof + bounded stand-in: totality, port range and scheme case are discharged deductively for all inputs; canonical-form, idempotence and RFC-agreement clauses are checked "
+               "exhaustively on all short strings over a hostile alphabet (3.3e6 quick / 5e7 thorough inputs) - complete within that bound, not a proof.",
+    level_note="Bounded part is labelled bounded in the evidence and never counted among discharged obligations. Known finding D11 (empty host not idempotent) is reported as KNOWN-FINDING. "
+               "Running-time clause: only a coarse super-linearity check at 1e5 characters.",
+    technique="contract-based deductive verification (VCs from the real ASTs, z3) for totality/port/scheme + exhaustive bounded contract check of the real parse_url (stand-in for regex-capture semantics)",
 )
